@@ -5,6 +5,7 @@ import pathlib
 import re
 import shutil
 import tempfile
+import typing
 
 from vk import driver, efx, epy, report, smt
 from props.common import SRC, parse_args
@@ -88,15 +89,30 @@ def main():
     # link == anchor: the fragment of filter_url_from_type(t) is filter_tag_id(t) for every composite t
     eng = epy.Engine(SRC)
     install_strings(eng)
-    INST = epy.SObj("CompositeType", {"full_name": epy.SStr, "root_namespace": epy.SStr, "version": epy.STuple([epy.SInt, epy.SInt])})
+    INST = epy.SObj("CompositeType", {"full_name": epy.SStr, "full_namespace": epy.SStr, "has_parent_service": epy.SBool, "root_namespace": epy.SStr, "version": epy.STuple([epy.SInt, epy.SInt])})
+
+    def b_getattr(it, o, name, default=None):
+        nm = smt.smt_str(name.t)
+        if isinstance(o, epy.VObj) and nm in it.ctx.heap[o.ref]:
+            return it.ctx.get_field(o, nm)
+        if default is None:
+            raise epy.PyRaise("AttributeError")
+        return default
+
+    eng.intrinsics["getattr"] = b_getattr
     TAG = epy.Contract(target="nunavut/lang/html/__init__.py:filter_tag_id", params={"instance": INST},
                        ensures=[("composite-anchor", "result == instance.full_name.replace('.', '_') + '_' + str(instance.version[0]) + '_' + str(instance.version[1])"),
                                 ],
                        bindings={"pydsdl": {"ArrayType": ("class", "ArrayType", {})}}, theory="string")
     URL = epy.Contract(target="nunavut/lang/html/__init__.py:filter_url_from_type", params={"instance": INST},
-                       ensures=[("link==anchor", "result == '../' + instance.root_namespace + '/#' + instance.full_name.replace('.', '_') + '_' + str(instance.version[0]) + '_' + str(instance.version[1])")],
+                       # the anchor a link must hit: the type's own tag id; for a service request/response type (named
+                       # <service>.Request / .Response by pydsdl, full_namespace == the service's full name) the service's tag id
+                       ensures=[("link==anchor", "result == '../' + instance.root_namespace + '/#' + ite(instance.has_parent_service, instance.full_namespace, instance.full_name).replace('.', '_') "
+                                 "+ '_' + str(instance.version[0]) + '_' + str(instance.version[1])")],
                        theory="string")
     driver.verify_contracts(run, eng, [TAG, URL])
+    structure_obligations(run, tdir)
+    native_links(run)
     w = native_xss()
     run.add_bounded("native: markup in DSDL comments does not reach the HTML verbatim", "one type with script/img/closing-tag comments", 1, w is None, str(w or ""))
     if w and not run.failures:
@@ -106,6 +122,215 @@ def main():
                "the sanitising filters e/escape/make_unique (html.escape) neutralise < > & \" '", "well-formedness of whole pages is not decided (N/A clause)")
     run.explanation = "taint obligation over the template ASTs: every output expression that contains DSDL free text passes an escaping filter or the template is autoescaped (computed from the real select_autoescape configuration)"
     return run.finish()
+
+
+VOID = {"meta", "link", "br", "img", "input", "hr", "area", "base", "col", "embed", "source", "track", "wbr", "!doctype"}
+TAG = re.compile(r"<(/?)([A-Za-z!][A-Za-z0-9]*)((?:[^<>\"']|\"[^\"]*\"|'[^']*')*?)(/?)>", re.S)
+
+
+def scan_tags(text: str, stack: list, errs: list, where: str) -> int:
+    """strict open-element stack over the tags of `text` (comments removed, void elements ignored)"""
+    text = re.sub(r"<!--.*?-->", "", text, flags=re.S)
+    n = 0
+    for m in TAG.finditer(text):
+        close, tag, selfc = m.group(1), m.group(2).lower(), m.group(4)
+        if tag in VOID or selfc:
+            continue
+        n += 1
+        if not close:
+            stack.append(tag)
+        else:
+            if not stack or stack[-1] != tag:
+                errs.append(f"{where}: </{tag}> closes while {stack[-1] if stack else 'nothing'} is the innermost open element")
+            if tag in stack:
+                while stack and stack.pop() != tag:
+                    pass
+    return n
+
+
+def block_balance(nodes, stack, errs, where, count):
+    """every control block of a template leaves the open-element stack as it found it (if: all branches alike), so every
+    path through the template emits properly nested markup provided the expression holes are balanced fragments / text"""
+    from nunavut.jinja.jinja2 import nodes as N
+    for n in nodes:
+        if isinstance(n, N.Output):
+            buf = "".join(e.data if isinstance(e, N.TemplateData) else "X" for e in n.nodes)
+            count[0] += scan_tags(buf, stack, errs, f"{where}:{n.lineno}")
+        elif isinstance(n, N.If):
+            base = list(stack)
+            outs = []
+            for br in [n.body] + [el.body for el in (n.elif_ or [])] + [n.else_ or []]:
+                st = list(base)
+                block_balance(br, st, errs, where, count)
+                outs.append(st)
+            if any(o != outs[0] for o in outs):
+                errs.append(f"{where}:{n.lineno}: the branches of an if leave different open elements {outs}")
+            stack[:] = outs[0]
+        elif isinstance(n, (N.For, N.Macro, N.CallBlock, N.FilterBlock, N.Block)):
+            st: list = []
+            block_balance(n.body, st, errs, where, count)
+            if st:
+                errs.append(f"{where}:{n.lineno}: the body of {type(n).__name__} leaves {st} open")
+            if isinstance(n, N.For) and n.else_:
+                block_balance(n.else_, [], errs, where, count)
+        elif hasattr(n, "body") and not isinstance(n, N.Template):
+            block_balance(n.body, stack, errs, where, count)
+
+
+def structure_obligations(run, tdir):
+    # (1) templates are block-balanced
+    total = 0
+    for path in sorted(tdir.glob("*.j2")):
+        rel = path.relative_to(SRC).as_posix()
+        tree = efx.parse_template(SRC, path)
+        errs: list = []
+        st: list = []
+        cnt = [0]
+        block_balance(tree.body, st, errs, path.name, cnt)
+        total += cnt[0]
+        if st:
+            errs.append(f"{path.name}: elements left open at the end of the template: {st}")
+        name = f"{rel}#every-control-block-is-tag-balanced"
+        run.add_check(name, not errs, "E-FX tag-stack over the Jinja AST", 0, f"{cnt[0]} tags; {errs[:2]}")
+        if errs:
+            run.fail(report.Failure(name, "post", "; ".join(errs[:3]), {"errors": errs}, False))
+    if total == 0:
+        run.undecide("no tag was scanned in any HTML template (vacuity guard)")
+    # (2) markup fragments built by the Python filters of the HTML target are properly nested on their own
+    mod = ast.parse((SRC / "nunavut/lang/html/__init__.py").read_text())
+    nfrag = 0
+    for fn in [n for n in ast.walk(mod) if isinstance(n, ast.FunctionDef)]:
+        for c in ast.walk(fn):
+            if isinstance(c, ast.Constant) and isinstance(c.value, str) and "<" in c.value and ">" in c.value and not (fn.body and isinstance(fn.body[0], ast.Expr) and fn.body[0].value is c):
+                errs = []
+                st = []
+                nfrag += scan_tags(c.value, st, errs, f"{fn.name}:{c.lineno}")
+                if st:
+                    errs.append(f"{fn.name}:{c.lineno}: fragment leaves {st} open")
+                name = f"nunavut/lang/html/__init__.py:{fn.name}#markup-fragment-properly-nested@{c.lineno}"
+                run.add_check(name, not errs, "E-FX tag-stack over string constants", 0, c.value[:60])
+                if errs:
+                    run.fail(report.Failure(name, "post", f"{errs[0]} in {c.value!r}", {"fragment": c.value, "errors": errs}, False))
+    run.notes["filter_fragment_tags_scanned"] = nfrag
+    # (3) the anchor of a type is produced for every listed type: its only permitted guard excludes the "_" pseudo type,
+    #     and the sidebar link is emitted under at least the same guards
+    allowed = {("type.short_name != '_'", True)}
+    anchors, links = [], []
+    for tname in ("namespace_info.j2", "sidebar.j2"):
+        tree = efx.parse_template(SRC, tdir / tname)
+        for expr, guards in efx.jinja_outputs(tree):
+            text = efx.jinja_text(expr)
+            if tname == "namespace_info.j2" and re.match(r"generate_type_info\(type, ", text) and text.count(",") == 1:
+                anchors.append((text, set(guards)))
+        if tname == "sidebar.j2":
+            from vk import ej
+            items = ej.flat_outputs(tree)
+            for e, g, _ in ej.exprs_after(items, r'href="#'):
+                if "tag_id" in efx.jinja_text(e):  # links to types (namespace links use the namespace name)
+                    links.append((efx.jinja_text(e), set(g)))
+    name = "nunavut/lang/html/templates/namespace_info.j2#anchor-emitted-for-every-listed-type"
+    ok = bool(anchors) and all(g <= allowed for _, g in anchors)
+    run.add_check(name, ok, "E-FX guards (Jinja AST)", 0, str([(t, sorted(g)) for t, g in anchors])[:200])
+    if not ok:
+        run.fail(report.Failure(name, "post", f"the anchor-producing call generate_type_info(type, ...) is missing or guarded by more than the '_' pseudo-type test: {[(t, sorted(g)) for t, g in anchors]}; "
+                                "links to the excluded types dangle", {}, False))
+    name = "nunavut/lang/html/templates/sidebar.j2#in-page-link-only-where-the-anchor-exists"
+    ag = set().union(*[g for _, g in anchors]) if anchors else set()
+    ok = bool(links) and all(ag <= g for _, g in links)
+    run.add_check(name, ok, "E-FX guards (Jinja AST)", 0, str([(t, sorted(g)) for t, g in links])[:200])
+    if not ok:
+        run.fail(report.Failure(name, "post", f"a sidebar link is emitted under weaker guards {[(t, sorted(g)) for t, g in links]} than the anchor {sorted(ag)}", {}, False))
+
+
+PROBE = {
+    "veh/Top.1.0.dsdl": "# top <b>doc</b>\nveh.body.Door.1.0 door\nveh.body.lock.Latch.1.2[<=3] latches\nveh.body.lock.pin.Pin.1.0[2] pins\noth.Ext.1.0 ext\ntruncated uint7 t\nsaturated int8 s\nvoid3\nfloat32 K = 1.5\n@sealed\n",
+    "veh/body/Door.1.0.dsdl": "uint8 a\nveh.body.lock.Latch.1.2 l\n@sealed\n",
+    "veh/body/lock/Latch.1.2.dsdl": "uint8 a\n@sealed\n",
+    "veh/body/lock/pin/Pin.1.0.dsdl": "truncated uint3[<=4] a\n@sealed\n",
+    "veh/_Raw.1.0.dsdl": "uint8 a\n@sealed\n",
+    "veh/U.1.0.dsdl": "@union\nveh._Raw.1.0 r\nuint8 b\n@sealed\n",
+    "veh/body/Svc.1.0.dsdl": "veh._Raw.1.0 r\n@sealed\n---\nveh.body.Door.1.0 d\n@sealed\n",
+    "veh/Old.1.0.dsdl": "@deprecated\nuint8 a\n@extent 64\n",
+    "oth/Ext.1.0.dsdl": "veh.body.lock.Latch.1.2 back\n@sealed\n",
+}
+
+
+def native_links(run):
+    """bounded stand-in + witness: render a probe corpus, parse every page strictly, resolve every type link"""
+    import html.parser
+    from vk import render
+    base = pathlib.Path(tempfile.mkdtemp(prefix="vk_c20_"))
+    try:
+        for rel, text in PROBE.items():
+            p = base / "in" / rel
+            p.parent.mkdir(parents=True, exist_ok=True)
+            p.write_text(text)
+        out = base / "out"
+        render.render_types("html", base / "in/veh", out, {}, lookup=[base / "in/oth"], support=False)
+        render.render_types("html", base / "in/oth", out, {}, lookup=[base / "in/veh"], support=False)
+
+        class P(html.parser.HTMLParser):
+            def __init__(s):
+                super().__init__(convert_charrefs=True)
+                s.stack, s.errs, s.ids, s.links = [], [], set(), []
+
+            def handle_starttag(s, tag, attrs):
+                d = dict(attrs)
+                if "id" in d:
+                    s.ids.add(d["id"])
+                if tag == "a" and "href" in d:
+                    s.links.append(d["href"])
+                if tag not in VOID:
+                    s.stack.append(tag)
+
+            def handle_endtag(s, tag):
+                if tag in VOID:
+                    return
+                if not s.stack or s.stack[-1] != tag:
+                    s.errs.append(f"</{tag}> closes while {s.stack[-1] if s.stack else None} is innermost (line {s.getpos()[0]})")
+                if tag in s.stack:
+                    while s.stack and s.stack.pop() != tag:
+                        pass
+
+        pages = {}
+        for p in sorted(out.rglob("*.html")):
+            ps = P()
+            ps.feed(p.read_text())
+            pages[p.resolve()] = ps
+        problems: typing.Dict[str, list] = {}
+        nlinks = 0
+        for p, ps in pages.items():
+            relp = p.relative_to(out.resolve()).as_posix()
+            if ps.errs or ps.stack:
+                problems.setdefault("page-well-formed", []).append(f"{relp}: {ps.errs[:2]} open at end: {ps.stack[:4]}")
+            for l in ps.links:
+                m = re.match(r"(\.\./[^#]*)?#(.+)", l)
+                if not m:
+                    continue
+                nlinks += 1
+                if m.group(1) is None:
+                    tgt = ps
+                else:
+                    d = (p.parent / m.group(1)).resolve()
+                    tgt = pages.get(d / "index.html")
+                if tgt is not None and m.group(2) in tgt.ids:
+                    continue
+                if re.search(r"_(Request|Response)_\d+_\d+$", m.group(2)):
+                    cls = "service-request-response-anchor"
+                elif relp.count("/") > 1 and m.group(1) is not None:
+                    cls = "link-from-a-nested-namespace-page"
+                else:
+                    cls = "link-target-exists"
+                problems.setdefault(cls, []).append(f"{relp}: href={l!r}")
+        ok = not problems
+        run.add_bounded("native: every type link resolves and every page is well-formed", f"probe corpus of {len(PROBE)} definitions (4 namespace levels, two roots, service, union, arrays of composites, leading-underscore name): {len(pages)} pages, {nlinks} links",
+                        nlinks, ok or set(problems) <= {"service-request-response-anchor", "link-from-a-nested-namespace-page"}, str({k: v[:2] for k, v in problems.items()})[:600])
+        for cls, items in problems.items():
+            run.fail(report.Failure(f"native#{cls}", "post", f"html target, probe corpus: {items[0]} ({len(items)} such links/pages)", {"items": items[:40], "probe": PROBE}, True))
+        if nlinks == 0:
+            run.undecide("native link check found no type link at all (vacuity guard)")
+    finally:
+        shutil.rmtree(base, ignore_errors=True)
 
 
 def install_strings(eng):
